@@ -2,6 +2,7 @@
 
 use crate::engine::*;
 use crate::sim::net::*;
+use renetcode::verif::Packet as NPacket;
 use std::net::SocketAddr;
 use std::time::Duration;
 
@@ -22,6 +23,7 @@ enum Op {
     Present { of: usize, from: usize, how: String, valid: bool, len: usize, reply: Option<usize> },
     Random { from: usize, len: usize },
     Advance { ms: u64 },
+    ForgedResponse { from: usize, what: &'static str, pending: bool, full: bool },
 }
 
 fn connected_addrs(nw: &NetWorld) -> Vec<SocketAddr> {
@@ -60,7 +62,7 @@ impl Property for C19 {
         "exploration"
     }
     fn rule(&self) -> String {
-        "A case = secure server with max_clients 1-3 in states empty / pending present / full / busy, up to 6 clients (tokens may share a client id) holding good, foreign-key, foreign-protocol, wrong-host and short-lived tokens; honest handshake steps build the state; adversarial presentations take any request or response datagram ever emitted by a not-yet-connected client and present it from its own or another unproven address exactly, padded to any length up to 1400, truncated, bit-flipped, prefix-modified or repeated, plus random bytes; the clock is stepped past token expiry. Oracle per datagram from an address that is not connected: the result is None, or one datagram to the same address strictly shorter than the input (PacketToSend or the payload inside ClientConnected); inputs that carry neither a valid token (by provenance: unmodified or only padded request minted with the server's key, protocol, host and unexpired, and not already used - answered - from a different address) nor a valid response (unmodified response of the client pending at that address) get None; never a Payload or a ClientDisconnected. Non-trivial: the input decodes as a request or response kind and is >= 18 bytes. Distinct = hash of the decoded operation trace.".into()
+        "A case = secure server with max_clients 1-3 in states empty / pending present / full / busy, up to 6 clients (tokens may share a client id) holding good, foreign-key, foreign-protocol, wrong-host and short-lived tokens; honest handshake steps build the state; adversarial presentations take any request or response datagram ever emitted by a not-yet-connected client and present it from its own or another unproven address exactly, padded to any length up to 1400, truncated, bit-flipped, prefix-modified or repeated, plus random bytes, plus responses in an authentic envelope (sealed with the sender's own key) that echo random bytes or the challenge issued to another client, also at pending addresses of a full server; the clock is stepped past token expiry. Oracle per datagram from an address that is not connected: the result is None, or one datagram to the same address strictly shorter than the input (PacketToSend or the payload inside ClientConnected); inputs that carry neither a valid token (by provenance: unmodified or only padded request minted with the server's key, protocol, host and unexpired, and not already used - answered - from a different address) nor a valid response (unmodified response of the client pending at that address) get None; never a Payload or a ClientDisconnected. Non-trivial: the input decodes as a request or response kind and is >= 18 bytes. Distinct = hash of the decoded operation trace.".into()
     }
     fn assumptions(&self) -> Vec<String> {
         vec!["'valid' is decided by provenance and the harness's knowledge of key, protocol id, host list and expiry".into()]
@@ -69,7 +71,7 @@ impl Property for C19 {
         PbtCfg { cases: tier.pick(400_000, 8_000_000), max_len: tier.pick(500, 1500), shrink_ms: 120_000 }
     }
     fn required_labels(&self) -> Vec<&'static str> {
-        vec!["valid_request", "padded_request", "valid_response", "invalid_token_request", "server_full", "denied_reply", "challenge_reply", "connected_reply", "expired_request", "request_other_address", "bound_token_other_address", "shared_client_id"]
+        vec!["valid_request", "padded_request", "valid_response", "invalid_token_request", "server_full", "denied_reply", "challenge_reply", "connected_reply", "expired_request", "request_other_address", "bound_token_other_address", "shared_client_id", "forged_response_at_pending", "forged_response_full_server"]
     }
     fn run_choices(&self, ctx: &mut Ctx) -> Outcome {
         let mut nw = NetWorld::new(ctx.src.u16() as u64);
@@ -117,7 +119,7 @@ impl Property for C19 {
         let mut bound: std::collections::HashMap<usize, SocketAddr> = Default::default();
         while !ctx.src.exhausted() && ops < max_ops {
             ops += 1;
-            let op = match ctx.src.weighted(&[10, 14, 3, 3]) {
+            let op = match ctx.src.weighted(&[10, 14, 3, 3, 5]) {
                 0 => {
                     // honest step of one client: update, deliver, deliver the reply
                     let c = ctx.src.below(n);
@@ -270,12 +272,55 @@ impl Property for C19 {
                     }
                     Op::Random { from: from_idx, len }
                 }
-                _ => {
+                3 => {
                     let ms = ctx.src.pick(&[300u64, 1000, 2500]);
                     let dt = Duration::from_millis(ms);
                     nw.now += dt;
                     nw.server_advance(0, dt);
                     Op::Advance { ms }
+                }
+                _ => {
+                    // a response in an authentic envelope (sealed with the sender's own client-to-server key, as the holder of a token can)
+                    // whose echoed challenge is not one this server issued to it: random bytes, or the challenge issued to another client
+                    let c = ctx.src.below(n);
+                    let from = client_addr(c);
+                    if connected_addrs(&nw).contains(&from) {
+                        continue;
+                    }
+                    let (what, seq, data) = if ctx.src.chance(128) {
+                        let mut d = [0u8; 300];
+                        fill_stream(ctx.src.u32() as u64, &mut d);
+                        ("random_challenge", ctx.src.u16() as u64, d)
+                    } else {
+                        let others: Vec<(u64, [u8; 300])> = nw
+                            .pool
+                            .iter()
+                            .filter(|d| d.kind == 2 && d.to != from)
+                            .filter_map(|d| {
+                                let o = (0..n).find(|&i| client_addr(i) == d.to)?;
+                                peek_challenge(&d.bytes, nw.clients[o].token.protocol_id, &nw.clients[o].token.server_to_client_key)
+                            })
+                            .collect();
+                        if others.is_empty() {
+                            continue;
+                        }
+                        let (s, d) = others[ctx.src.below(others.len())];
+                        ("challenge_of_another_client", s, d)
+                    };
+                    let t = &nw.clients[c].token;
+                    let b = seal(&NPacket::Response { token_sequence: seq, token_data: data }, t.protocol_id, 7000 + ops as u64, &t.client_to_server_key);
+                    let pending = nw.servers[0].server.verif_pending_addrs().contains(&from);
+                    let full = nw.servers[0].server.connected_clients() >= max_clients;
+                    if pending {
+                        ctx.label("forged_response_at_pending");
+                        if full {
+                            ctx.label("forged_response_full_server");
+                        }
+                    }
+                    let out = nw.server_recv(0, from, &b);
+                    judge(&nw, from, b.len(), &out, false, &format!("response sealed by client {c} echoing {what} (pending here: {pending}, server full: {full})"))?;
+                    ctx.nontrivial = true;
+                    Op::ForgedResponse { from: c, what, pending, full }
                 }
             };
             ctx.op(&op);
